@@ -970,7 +970,7 @@ def encode_swan(case, outdir):
 def read_swan(arg, case, oned=False):
     from wavespectra import read_swan as rd
 
-    return rd(arg)
+    return rd(arg, **case.get("read_kw", {}))
 
 
 def expected_swan(case):
